@@ -12,6 +12,7 @@ import (
 	"sync"
 	"sync/atomic"
 	"testing"
+	"time"
 
 	"github.com/zerx-lab/wordZero/pkg/document"
 	"pgregory.net/rapid"
@@ -27,10 +28,10 @@ func TestMain(m *testing.M) {
 		os.Exit(childMain(p))
 	}
 	if kit.RaceMode() {
-		kit.TestMain(m, 60, 1000)
+		kit.TestMain(m, 50, 1000)
 		return
 	}
-	kit.TestMain(m, 280, 4000)
+	kit.TestMain(m, 250, 4000)
 }
 
 // Case is a set of histories on distinct documents plus the two schedules they are executed under.
@@ -41,6 +42,7 @@ type Case struct {
 	Procs int        `json:"procs"`           // GOMAXPROCS of the concurrent part
 	Reps  int        `json:"reps,omitempty"`  // >1: the concurrent part is executed Reps times (regression cases of schedule-dependent defects; never generated)
 	Sub   int        `json:"sub,omitempty"`   // >0: run the concurrent part Sub times in a child process (witnesses of process-killing races; never generated)
+	Cold  bool       `json:"cold,omitempty"`  // the concurrent part is executed first of all in a FRESH process: the first use of every feature in that process happens in several goroutines at once (cold.go)
 }
 
 // ---------------------------------------------------------------------------------------------
@@ -56,6 +58,8 @@ var families = map[string][]string{
 	"tpl":   {"tplstr", "tpldoc", "tpldoc2"},
 	"md":    {"md"},
 	"toc":   {"toc", "autotoc", "updatetoc"},
+	// documents derived from one another (derived.go)
+	"derived": {"swap", "notecount", "rmfootnote", "rmendnote", "reopen"},
 }
 var focusNames = []string{"image", "hf", "style", "props", "page", "table", "tpl", "md", "toc"}
 
@@ -182,34 +186,50 @@ func genCase(t *rapid.T) Case {
 	c := Case{Procs: rapid.SampledFrom([]int{2, 4, 16}).Draw(t, "procs")}
 	maxOps := kit.Scale(12, 25)
 	total := 0
+	// cold case (cold.go): one drawn op opens every history; the concurrent part runs first of all in a fresh process.
+	// The race twin, which judges nothing but the concurrent part, spends half of its cases on it.
+	coldDen := 8
+	if kit.RaceMode() {
+		coldDen = 2
+	}
+	var prefix []ops.Op
+	if rapid.IntRange(0, coldDen-1).Draw(t, "cold") == coldDen-1 { // shrinks towards "not cold"
+		ccfg := &ops.Config{Classes: classes, Weights: weights(false, focus)}
+		for i, m := 0, rapid.IntRange(1, 3).Draw(t, "ncold"); i < m; i++ {
+			prefix = append(prefix, coldOp(t, ccfg))
+		}
+		c.Cold = true
+	}
 	for d := 0; d <= k; d++ {
 		reg := mode == 2 || (mode == 1 && d == owner)
 		cfg := &ops.Config{Classes: classes, Weights: weights(reg, focus)}
 		h := cfg.History(t, 1, maxOps)
-		if rapid.IntRange(0, 4).Draw(t, "render-scenario") == 0 {
-			// a base document that already has notes / list items is rendered as a template and the render (or the
-			// second render of tpldoc2) gets more of them: base, renders and siblings must stay what they were
-			noteKinds := []string{"footnote", "endnote", "listitem", "footnote", "endnote", "bullet", "para"}
-			var sc []ops.Op
-			for i, m := 0, rapid.IntRange(1, 3).Draw(t, "pre"); i < m; i++ {
-				sc = append(sc, cfg.OpOf(t, rapid.SampledFrom(noteKinds).Draw(t, "prek")))
-			}
-			sc = append(sc, cfg.OpOf(t, rapid.SampledFrom([]string{"tpldoc", "tpldoc2", "tpldoc"}).Draw(t, "renderk")))
-			for i, m := 0, rapid.IntRange(1, 3).Draw(t, "post"); i < m; i++ {
-				sc = append(sc, cfg.OpOf(t, rapid.SampledFrom(noteKinds).Draw(t, "postk")))
-			}
+		if rapid.IntRange(0, 3).Draw(t, "derived-scenario") == 0 {
+			// documents derived from one another (template base / renders / siblings / reopened copies) and edits
+			// that jump between them: see derived.go
+			sc := derivedScenario(t, cfg)
 			if len(h) > maxOps/2 {
 				h = h[:maxOps/2]
 			}
 			cut := rapid.IntRange(0, len(h)).Draw(t, "scenario-at")
 			h = append(append(append([]ops.Op{}, h[:cut]...), sc...), h[cut:]...)
 		}
+		if len(prefix) > 0 {
+			var hp []ops.Op
+			for _, o := range prefix {
+				hp = append(hp, copyOp(o))
+			}
+			if len(h) > maxOps-len(hp) {
+				h = h[:maxOps-len(hp)]
+			}
+			h = append(hp, h...)
+		}
 		sanitiseTemplateData(h)
 		c.Docs = append(c.Docs, h)
 		total += len(h)
 		y := make([]bool, len(h))
 		for i := range y {
-			y[i] = rapid.IntRange(0, 2).Draw(t, "yield") == 0
+			y[i] = rapid.IntRange(0, 2).Draw(t, "yield") == 0 && i >= len(prefix)
 		}
 		c.Yield = append(c.Yield, y)
 	}
@@ -262,7 +282,12 @@ type docRun struct {
 	aside []asideDoc
 	i4    []string // differences found when the history ended
 
-	tbOK    bool  // the final ToBytes of the current document succeeded
+	// I5 (project.go): which document every op was applied to, and where each document of the history came from
+	settled map[*document.Document]bool // set-aside documents observed at least once since they were set aside
+	targets []*document.Document
+	born    map[*document.Document]birth
+
+	tbOK     bool   // the final ToBytes of the current document succeeded
 	zipNames string // race twin: only the entry names of the final ToBytes are kept
 	pkgSnap  *Snap  // its parts (reference for the files written by Save in the concurrent part)
 }
@@ -276,7 +301,22 @@ type asideDoc struct {
 const maxAside = 5
 
 // sideSnap observes a document that is not the current one of its history: bytes and accessor results.
-func sideSnap(d *document.Document) *Snap {
+func (r *docRun) sideSnap(d *document.Document) *Snap {
+	// The observer's own calls are calls on the document: the first GetPageSettings materialises an (empty)
+	// section-properties element, the first ToBytes registers the definitions of table styles that tables refer to
+	// in the document's style manager, ... The first observation of a document since it was last edited is therefore
+	// preceded by one discarded round of the same calls, so that what is recorded is the settled state and observing
+	// a document twice without anybody touching it gives the same result.
+	if !r.settled[d] {
+		warm := &Snap{}
+		warm.addAccessors(d)
+		warm.addCounts(d)
+		kit.Try(func() { d.ToBytes() })
+		if r.settled == nil {
+			r.settled = map[*document.Document]bool{}
+		}
+		r.settled[d] = true
+	}
 	s := &Snap{}
 	// accessors first: GetPageSettings materialises an (empty) section-properties element on first use, which
 	// would otherwise make the second observation differ from the first through the observer's own calls
@@ -309,7 +349,7 @@ func (r *docRun) noteAside() {
 		if len(r.aside) < maxAside && sd != r.x.Doc {
 			a := asideDoc{doc: sd, op: len(r.outcomes)}
 			if r.track {
-				a.at = sideSnap(sd)
+				a.at = r.sideSnap(sd)
 			}
 			r.aside = append(r.aside, a)
 		}
@@ -323,7 +363,7 @@ func (r *docRun) checkAside(s *Snap) {
 		if r.x != nil && a.doc == r.x.Doc {
 			continue // became the current document again
 		}
-		end := sideSnap(a.doc)
+		end := r.sideSnap(a.doc)
 		for _, it := range end.Items {
 			it.Name = fmt.Sprintf("side%d:%s", j, it.Name)
 			s.add(it)
@@ -343,13 +383,30 @@ func (r *docRun) step(o ops.Op) {
 		return
 	}
 	var err error
-	p, _ := kit.Try(func() { err = r.x.Do(o) })
+	extra := ""
+	target := r.x.Doc
+	if r.born == nil {
+		r.born = map[*document.Document]birth{target: {at: -1}}
+	}
+	defer func() {
+		r.targets = append(r.targets, target)
+		r.noteBirths(len(r.targets)-1, o.K, target)
+	}()
+	p, _ := kit.Try(func() {
+		if localKinds[o.K] {
+			extra, err = r.doLocal(o)
+		} else {
+			err = r.x.Do(o)
+		}
+	})
 	switch {
 	case p != nil:
 		r.outcomes = append(r.outcomes, fmt.Sprintf("%s:panic:%v", o.K, p))
 		r.dead = true
 	case err != nil:
 		r.outcomes = append(r.outcomes, o.K+":err:"+err.Error())
+	case extra != "":
+		r.outcomes = append(r.outcomes, o.K+":ok:"+extra)
 	default:
 		r.outcomes = append(r.outcomes, o.K+":ok")
 	}
@@ -372,6 +429,16 @@ func newRun(base string, d int) *docRun {
 		return &docRun{dead: true, outcomes: []string{fmt.Sprintf("New:panic:%v", p)}}
 	}
 	return &docRun{x: x}
+}
+
+// newTracked: the observation of a document at the moment it is set aside calls accessors that initialise lazily
+// created state of that document (section properties, note manager). As long as nobody edits a set-aside document
+// this cannot be seen, so the interleaved run saves the time; a history that makes such a document the current one
+// again (swap) is observed in the same way in every run, otherwise the runs would not execute the same calls.
+func newTracked(base string, d int, history []ops.Op) *docRun {
+	r := newRun(base, d)
+	r.track = hasKind(history, "swap")
+	return r
 }
 
 func (r *docRun) snap(withCounts bool) *Snap {
@@ -411,18 +478,23 @@ func (r *docRun) snap(withCounts bool) *Snap {
 
 // runAlone builds document d in a process state without any other document.
 func runAlone(base string, d int, history []ops.Op, track bool) (*Snap, []string) {
+	r, s := runAloneRun(base, d, history, track)
+	return s, r.i4
+}
+
+func runAloneRun(base string, d int, history []ops.Op, track bool) (*docRun, *Snap) {
 	document.VerifResetGlobals()
 	r := newRun(base, d)
-	r.track = track
+	r.track = track || hasKind(history, "swap") // see newTracked
 	for _, o := range history {
 		r.step(o)
 	}
-	return r.snap(true), r.i4
+	return r, r.snap(true)
 }
 
 // runInterleaved executes all histories in one goroutine in the order the case prescribes and returns the
 // snapshots (taken after every history has finished) and the realised schedule.
-func runInterleaved(base string, c Case) ([]*Snap, []int, [][]string) {
+func runInterleaved(base string, c Case) ([]*Snap, []int, [][]string, [][]string) {
 	document.VerifResetGlobals()
 	n := len(c.Docs)
 	runs := make([]*docRun, n)
@@ -433,7 +505,7 @@ func runInterleaved(base string, c Case) ([]*Snap, []int, [][]string) {
 			return
 		}
 		if runs[d] == nil {
-			runs[d] = newRun(base, d)
+			runs[d] = newTracked(base, d, c.Docs[d])
 		}
 		runs[d].step(c.Docs[d][next[d]])
 		next[d]++
@@ -453,7 +525,7 @@ func runInterleaved(base string, c Case) ([]*Snap, []int, [][]string) {
 	snaps := make([]*Snap, n)
 	for d := 0; d < n; d++ {
 		if runs[d] == nil {
-			runs[d] = newRun(base, d)
+			runs[d] = newTracked(base, d, c.Docs[d])
 		}
 		snaps[d] = runs[d].snap(true)
 	}
@@ -461,7 +533,44 @@ func runInterleaved(base string, c Case) ([]*Snap, []int, [][]string) {
 	for d := 0; d < n; d++ {
 		i4[d] = runs[d].i4
 	}
-	return snaps, sched, i4
+	// the documents are saved one after the other, twice round, into ONE directory under their own names; when all
+	// of them are written every file must hold its own document
+	shared := filepath.Join(base, "shared-seq")
+	os.RemoveAll(shared)
+	os.MkdirAll(shared, 0o755)
+	save := make([][]string, n)
+	for rep := 0; rep < saveReps; rep++ {
+		for d := 0; d < n; d++ {
+			r := runs[d]
+			if r.x == nil || r.dead {
+				continue
+			}
+			var err error
+			path := filepath.Join(shared, fmt.Sprintf("doc%d.docx", d))
+			if p, _ := kit.Try(func() { err = r.x.Doc.Save(path) }); p != nil {
+				err = fmt.Errorf("panic: %v", p)
+			}
+			if (err == nil) != r.tbOK && len(save[d]) == 0 {
+				save[d] = append(save[d], fmt.Sprintf("Save #%d of %s returned %v although ToBytes of the same document ok=%v", rep, filepath.Base(path), err, r.tbOK))
+			}
+		}
+	}
+	for d := 0; d < n; d++ {
+		r := runs[d]
+		if r.x == nil || r.dead || !r.tbOK || r.pkgSnap == nil {
+			continue
+		}
+		path := filepath.Join(shared, fmt.Sprintf("doc%d.docx", d))
+		fb, rerr := os.ReadFile(path)
+		if rerr != nil {
+			save[d] = append(save[d], fmt.Sprintf("the file written by Save cannot be read: %v", rerr))
+			continue
+		}
+		for _, dl := range diffFileParts(r.pkgSnap, fb) {
+			save[d] = append(save[d], fmt.Sprintf("file %s written by Save differs from the document's ToBytes: item=%s: %s", filepath.Base(path), dl.Item, dl.Detail))
+		}
+	}
+	return snaps, sched, i4, save
 }
 
 // runConcurrent executes every history in its own goroutine (document created, edited and observed inside the
@@ -475,6 +584,12 @@ type concResult struct {
 }
 
 const saveReps = 2
+
+// noStepCounter switches the shared step counter of the concurrent part off (set only in the child process of a
+// cold case): an atomic counter orders the goroutines for the race detector (happens-before through the atomic),
+// which hides conflicting accesses that do not overlap in time. Without it the goroutines share nothing between
+// the start barrier and the end of their histories.
+var noStepCounter bool
 
 // diffFileParts compares the parts of a saved file with the parts of the document's own ToBytes.
 func diffFileParts(want *Snap, file []byte) []Delta {
@@ -550,7 +665,13 @@ func runConcurrent(base string, c Case, countsInside bool) *concResult {
 			defer done.Done()
 			ready.Done()
 			<-start
-			first := atomic.AddInt64(&steps, 1)
+			tick := func() int64 {
+				if noStepCounter {
+					return 0
+				}
+				return atomic.AddInt64(&steps, 1)
+			}
+			first := tick()
 			r := newRun(base, d)
 			r.track = true
 			runs[d] = r
@@ -559,10 +680,10 @@ func runConcurrent(base string, c Case, countsInside bool) *concResult {
 					runtime.Gosched()
 				}
 				r.step(o)
-				atomic.AddInt64(&steps, 1)
+				tick()
 			}
 			snaps[d] = r.snap(countsInside)
-			last := atomic.AddInt64(&steps, 1)
+			last := tick()
 			foreign[d] = (last - first) - int64(len(c.Docs[d])+1)
 
 			// every document is saved, by its own goroutine, into ONE directory under its own file name; the
@@ -692,6 +813,35 @@ func run(c Case) *kit.Result {
 		res.Label("shared:style|header|image")
 	}
 	res.Label(fmt.Sprintf("docs:%d", n))
+	for _, h := range c.Docs {
+		opened, derived := false, false
+		for _, o := range h {
+			switch o.K {
+			case "reopen":
+				if !opened {
+					opened = true
+					continue
+				}
+				derived = true
+			case "tpldoc", "tpldoc2":
+				derived = true
+				if opened {
+					res.Label("derived:render-of-opened-base")
+				}
+			case "swap":
+				if derived || opened {
+					res.Label("derived:swap")
+				}
+			case "rmfootnote", "rmendnote":
+				res.Label("derived:rmnote")
+				if derived && opened {
+					res.Label("derived:rmnote-after-render-of-opened-base")
+				}
+			case "notecount":
+				res.Label("derived:notecount")
+			}
+		}
+	}
 	regDocs := 0
 	for _, h := range c.Docs {
 		if len(docFams(h)) > 0 {
@@ -722,10 +872,24 @@ func run(c Case) *kit.Result {
 		}
 	}
 	for d := 0; d < n && !race; d++ {
-		var i4 []string
-		alone[d], i4 = runAlone(base, d, c.Docs[d], true)
+		var ar *docRun
+		ar, alone[d] = runAloneRun(base, d, c.Docs[d], true)
 		res.Eval("C07.I4")
-		reportI4("built alone", d, i4)
+		reportI4("built alone", d, ar.i4)
+		// I5: the final document of the history does not depend on the edits of the other documents of its family
+		if hp := ar.projection(c.Docs[d]); hp != nil {
+			res.Eval("C07.I5")
+			res.Label("derived:projection")
+			pr, ps := runAloneRun(base, d, hp, true)
+			if pr.dead {
+				res.Count("projection-died", 1)
+				continue
+			}
+			for _, dl := range diffSnaps(finalItems(alone[d]), finalItems(ps), 3) {
+				res.Fail("C07.I5", "doc=%d: the final document of the history differs when the %d calls made on OTHER documents of the history (siblings, unrelated documents, ancestors after the derivation) are left out: item=%s: %s",
+					d, len(c.Docs[d])-len(hp), dl.Item, strings.Replace(dl.Detail, "alone vs together", "whole history vs projection", 1))
+			}
+		}
 	}
 
 	between := false
@@ -739,9 +903,12 @@ func run(c Case) *kit.Result {
 			}
 		}
 		// I1: sequential interleaving
-		snaps, sched, i4 := runInterleaved(base, c)
+		snaps, sched, i4, seqSave := runInterleaved(base, c)
 		for d := 0; d < n; d++ {
 			reportI4("interleaved", d, i4[d])
+			for _, x := range seqSave[d] {
+				res.Fail("C07.I1", "doc=%d item=save-into-shared-directory (one after the other): %s", d, x)
+			}
 		}
 		seenA, seenBafterA := false, false
 		for _, d := range sched {
@@ -771,6 +938,9 @@ func run(c Case) *kit.Result {
 			res.Count("excluded:"+kfRace, 1)
 			res.Label("conc:excluded")
 		} else {
+			if c.Cold && c.Sub == 0 {
+				runCold(res, c)
+			}
 			if race {
 				kit.RaceDelta() // nothing before the concurrent part belongs to this case
 			}
@@ -831,18 +1001,22 @@ func TestC07(t *testing.T) {
 	}
 	kit.Main(t, kit.Spec[Case]{
 		ID: "C07", Level: "exploration",
-		Rule: "2-5 generated histories (1-12 ops each, thorough 1-25; whole document API except reopen, strings of all classes) on distinct documents, a drawn sequential interleaving and a drawn concurrent schedule (Gosched points, GOMAXPROCS 2/4/16); " +
+		Rule: "2-5 generated histories (1-12 ops each, thorough 1-25; whole document API, strings of all classes) on distinct documents, a drawn sequential interleaving and a drawn concurrent schedule (Gosched points, GOMAXPROCS 2/4/16); " +
 			"1-3 drawn focus families (images, headers/footers, styles, properties, page settings, tables, templates, markdown, TOC) are boosted in every document so that the documents use the same per-document machinery; " +
 			"non-trivial (normal binary) = A and some B have >=3 distinct op kinds and a B-op is executed strictly between two A-ops; non-trivial (race twin) = the same richness and min(3, #documents) goroutines overlapped in time (shared atomic step counter); " +
-			"one history in five contains {notes/list items, template render, more notes/list items}; documents set aside inside a history are observed twice (I4); the concurrent part ends with overlapping Save calls of all documents into one shared directory; " +
+			"one history in four contains a derived-documents scenario {1-3 ops of one or two families of per-document state (notes, lists most often), [reopen], [note counters read], render / two renders / reopen, 2-6 edits of the same families mixed with swaps back to set-aside documents, note removals by id}; " +
+			"documents set aside inside a history are observed twice (I4); the history is executed again without the calls on other documents of its family (I5); both runs end with Save calls of all documents into one shared directory (one after the other / overlapping); " +
+			"cold cases (1 in 8, race twin 1 in 2): every history starts with the same 1-3 drawn ops and the concurrent part runs first of all in a fresh child process; " +
 			"distinct = distinct vector of (history length, op families used) per document",
 		Gen: genCase, Run: run, Findings: fs, Fixed: fixedCases,
 		Assumptions: []string{
 			"the reference for a document is the same history executed alone after VerifResetGlobals() (state of a fresh process) in the same process",
 			"lists the library writes in map-iteration order (children of w:numbering, w:footnotes, w:endnotes, w:styles, content-type and relationship lists) are compared as multisets; dcterms:created/modified are not compared; zip entry order is not compared",
 			"the race twin relies on the Go race detector (reports each distinct race once per process)",
+			"I5: ops that create or select a document (render, reopen, conversion, swap) are kept when the calls on other documents are removed; they are assumed not to edit the document they read, apart from what they do identically in both runs",
+			"set-aside documents are observed after one discarded round of the same observer calls (the observer's calls are calls on the document: lazily materialised section properties, table style definitions registered by ToBytes)",
 		},
-		MustSee:   map[string]float64{"shared:style|header|image": 0.5, "registry:none": 0.2},
-		CaseLimit: 0,
+		MustSee:   map[string]float64{"shared:style|header|image": 0.5, "registry:none": 0.2, "conc:cold-start": 0.05, "derived:rmnote": 0.1, "derived:swap": 0.1},
+		CaseLimit: 45 * time.Second, // a cold case starts a process; the machine may be busy
 	})
 }
